@@ -437,8 +437,10 @@ impl<'a> UserModel<'a> {
                 None => self.model.delete_cell_link(sheet, row, column)?,
             }
         }
-        // `old_link` is the link the target had before the fill touched it
-        if old_link == new_link {
+        // `old_link` is the link the target had before the fill touched it.
+        // Redo and other replicas re-apply the value, which auto-creates the
+        // link again: the diff is also needed when the fill removed such a link
+        if old_link == new_link && current_link == new_link {
             return Ok(());
         }
         diff_list.push(Diff::SetCellLink {
